@@ -295,7 +295,7 @@ fn gen_history(rng: &mut Rng, len: usize) -> Vec<Op> {
 pub fn run(ctx: &Ctx) -> i32 {
     let spec = Spec {
         level: "exploration",
-        rule: "cases are store/retrieve operations inside random histories on a fresh table, each checked online against a reference map with the rule 'replace iff new depth >= held depth' (the held state is re-observed before every store so that a table that legitimately drops entries is not accused); keys are hostile: 0, 1, MAX, pairs differing in one bit, sets equal in the low 16/20/24/32 bits or in the high 32 bits, rotations; depths around 0, 127/128 and 255; all three bounds; None moves. Capacity histories: a few dozen anchor entries, then up to 2^20 (quick) / 2^22 (thorough) stores under distinct keys, anchors and a sample of the fillers re-examined at every power of two. evaluations counts operations; distinct by (operation kind, key, eval, depth, bound); every operation counts as non-trivial because all keys, depths and scores are drawn from the hostile sets",
+        rule: "cases are store/retrieve operations inside random histories on a fresh table, each checked online against a reference map with the rule 'replace iff new depth >= held depth' (the held state is re-observed before every store so that a table that legitimately drops entries is not accused); keys are hostile: 0, 1, MAX, pairs differing in one bit, sets equal in the low 16/20/24/32 bits or in the high 32 bits, rotations; depths around 0, 127/128 and 255; all three bounds; None moves. Capacity histories: a few dozen anchor entries, then up to 2^22 (quick) / 2^24 (thorough) stores under distinct keys, anchors and a sample of the fillers re-examined at every power of two. evaluations counts operations; distinct by (operation kind, key, eval, depth, bound); every operation counts as non-trivial because all keys, depths and scores are drawn from the hostile sets",
         assumptions: vec!["a retrieve that returns nothing for a key that holds data is accepted (the property allows a lossy table); retrieve_hit must be > 0 for the run to count".into()],
         required: if ctx.replay.is_some() { vec![] } else { vec!["retrieve_hit", "retrieve_miss", "store_first", "store_replaces_equal_depth", "store_replaces_shallower", "store_refused_shallower", "capacity_histories", "capacity_checkpoints"] },
         exhaustive: false,
@@ -325,9 +325,9 @@ pub fn run(ctx: &Ctx) -> i32 {
         let mut st = Stats::new();
         let mut rng = Rng::new(ctx.seed, 400 + w as u64);
         // capacity histories: the table filled far beyond what any unit test stores; sizes just
-        // past the powers of two up to 2^20 (quick) / 2^22 (thorough), spread over the workers
+        // past the powers of two up to 2^22 (quick) / 2^24 (thorough), spread over the workers
         {
-            let top: u32 = if ctx.quick() { 20 } else { 22 };
+            let top: u32 = if ctx.quick() { 22 } else { 24 };
             let exp = top.saturating_sub((w as u32) % 6 * 2).max(10);
             let n_fill = (1u64 << exp) + (1u64 << (exp - 2)) + rng.below(1000);
             let hseed = ctx.seed.wrapping_mul(1000).wrapping_add(w as u64);
